@@ -85,7 +85,7 @@ def gen_files(ctx, n_files):
               dict(n_slices=2, kind="IncrementalCell"), dict(n_slices=3), dict(n_slices=4), {}] + \
              [dict(n_slices=2, sibling=v) for v in B.SIBLING_VARIANTS] + \
              [dict(n_slices=2, force=("nested",)), dict(n_slices=2, force=("semi", "late")),
-              dict(n_slices=3, kind="Cell", force=("farspan",)), dict(n_slices=2, kind="CumulativeCell", force=("farspan",))]   # slot 5 = calendar file
+              dict(n_slices=3, kind="Cell", force=("farspan",)), dict(n_slices=2, kind="CumulativeCell", force=("farspan",)), dict(n_slices=2, force=("nfc",))]   # slot 5 = calendar file
     cap = 1800 if ctx.quick else 2600
     tries = 0
     while len(out) < n_files and tries < n_files * 40:
@@ -212,6 +212,28 @@ def run(ctx):
                     ctx.violation("impl-violation", bad[0], {"pair": [pa, pb], **bad[1]}, found_input=True)
     sc2.cleanup()
 
+    # ---- refusal kept / triangles produced by replace, select, derive_fields, then saved and cut
+    rd = random.Random(ctx.seed * 53 + 11)
+    sc4 = B.Scratch(ctx.build)
+    for _ in range(3 if ctx.quick else 12):
+        bad = B.unrankable_oracle(rd, sc4)
+        ctx.hist("unrankable_metadata_probe")
+        if bad is not None:
+            ctx.violation("impl-violation", bad[0], bad[1], found_input=True)
+            break
+    multi = [wt for wt, _, _ in files if len({repr(c["meta"]) for c in wt}) >= 2 and len(wt) >= 3]
+    n_der = 0
+    for wt in multi[: (6 if ctx.quick else 40)]:
+        for op in ("relabel", "restate", "select", "derive"):
+            bad = B.derived_oracle(wt, sc4, rd, op)
+            ctx.hist("derived:" + op)
+            ctx.count(evaluations=len(wt) + 10, traces=1)
+            if bad is not None:
+                n_der += 1
+                if n_der <= 2:
+                    ctx.violation("impl-violation", bad[0], bad[1], found_input=True)
+    sc4.cleanup()
+
     # ---- LARGE stream (family Q), Python-side oracles only
     sc3 = B.Scratch(ctx.build)
     B.run_large_stream(ctx, sc3, "c19", early=(files[0][0], files[0][1]) if files else None)
@@ -323,6 +345,20 @@ def run(ctx):
 
 
 def replay(ctx, data):
+    if data.get("check") in ("derived", "unrankable"):
+        sc = B.Scratch(ctx.build)
+        try:
+            rr = random.Random(1)
+            if data["check"] == "derived":
+                bad = B.derived_oracle(data["wt"], sc, rr, data["derive"])
+            else:
+                bad = None
+                for _ in range(6):
+                    bad = bad or B.unrankable_oracle(rr, sc)
+            print("replay:", "PROPERTY FAILS: " + bad[0] if bad else "holds")
+            return 1 if bad else 0
+        finally:
+            sc.cleanup()
     if "large_params" in data:
         sc = B.Scratch(ctx.build)
         try:
